@@ -783,6 +783,182 @@ def gen_theory(out):
     out.append('\n'.join(lines))
 
 
+# ------------------------------------------------------------------------------------------------ dynamic layer: what DiamondFormula / BoxFormula build
+BOOLOP = {'&': 'OpAnd', '|': 'OpOr', '<-': 'OpLImp', '->': 'OpRImp', '<>': 'OpEqv'}
+
+
+class BuildExec:
+    """symbolic executor for the formula constructions of the translate_XPath methods: local names bound to
+    ctx.add_formula(...) results, constructor calls, and one final  self.add_atom(<formula>.translate(ctx, step), step)"""
+
+    def __init__(self):
+        self.env, self.result = {}, None
+
+    def unwrap(self, e):
+        while isinstance(e, ast.Call) and ast.unparse(e.func) in ('ctx.add_formula', 'add_formula') and len(e.args) == 1 and not e.keywords:
+            e = e.args[0]
+        return e
+
+    def path(self, e):
+        e = self.unwrap(e)
+        src = ast.unparse(e)
+        sel = {'self._path._lhs': 'PSelLhs', 'self._path._rhs': 'PSelRhs', 'self._path._arg': 'PSelArg', 'SkipPath()': 'PSkipC'}
+        if src in sel:
+            return sel[src]
+        raise Unsupported('path expression ' + src)
+
+    def fml(self, e):
+        e = self.unwrap(e)
+        src = ast.unparse(e)
+        if src == 'self':
+            return 'CSelf'
+        if src == 'self._rhs':
+            return 'CRhs'
+        if src == 'self._path._arg':
+            return 'CTest'
+        if isinstance(e, ast.Name):
+            if e.id not in self.env:
+                raise Unsupported('unbound formula ' + e.id)
+            return self.env[e.id]
+        if isinstance(e, ast.Call) and isinstance(e.func, ast.Name) and not e.keywords:
+            f, a = e.func.id, e.args
+            if f in ('DiamondFormula', 'BoxFormula') and len(a) == 2:
+                return '(%s %s %s)' % ('CDia' if f == 'DiamondFormula' else 'CBox', self.path(a[0]), self.fml(a[1]))
+            if f == 'BooleanFormula' and len(a) == 3 and isinstance(a[0], ast.Constant) and a[0].value in BOOLOP:
+                return '(CBool %s %s %s)' % (BOOLOP[a[0].value], self.fml(a[1]), self.fml(a[2]))
+            if f == 'Negation' and len(a) == 1:
+                return '(CNeg %s)' % self.fml(a[0])
+            if f == 'Next' and len(a) == 3 and isinstance(a[1], ast.Constant) and isinstance(a[1].value, int) and a[1].value >= 0 \
+                    and isinstance(a[2], ast.Constant) and isinstance(a[2].value, bool):
+                return '(CNext %s %d %s)' % (self.fml(a[0]), a[1].value, 'true' if a[2].value else 'false')
+            if f == 'BooleanConstant' and len(a) == 1 and isinstance(a[0], ast.Constant) and isinstance(a[0].value, bool):
+                return '(CConst %s)' % ('true' if a[0].value else 'false')
+        raise Unsupported('formula construction ' + src[:120])
+
+    def run(self, stmts):
+        for st in stmts:
+            if isinstance(st, ast.Expr) and isinstance(st.value, ast.Constant):
+                continue
+            if self.result is not None:
+                raise Unsupported('statement after add_atom')
+            if isinstance(st, ast.Assign) and len(st.targets) == 1 and isinstance(st.targets[0], ast.Name):
+                self.env[st.targets[0].id] = self.fml(st.value)
+                continue
+            if isinstance(st, ast.Expr) and isinstance(st.value, ast.Call) and ast.unparse(st.value.func) == 'self.add_atom' and len(st.value.args) == 2 \
+                    and ast.unparse(st.value.args[1]) == 'step':
+                t = st.value.args[0]
+                if isinstance(t, ast.Call) and isinstance(t.func, ast.Attribute) and t.func.attr == 'translate' and [ast.unparse(x) for x in t.args] == ['ctx', 'step']:
+                    self.result = self.fml(t.func.value)
+                    continue
+            raise Unsupported('construction statement ' + ast.unparse(st)[:160])
+        if self.result is None:
+            raise Unsupported('no add_atom')
+        return self.result
+
+
+def if_chain_returns(fn_src_tree, tests):
+    """returns {constant: constructor name} for `if rep.name == "<c>": return add_formula(<Ctor>(...))` / else-assert chains"""
+    out = {}
+    for n in ast.walk(fn_src_tree):
+        if isinstance(n, ast.If) and isinstance(n.test, ast.Compare) and ast.unparse(n.test.left) == 'rep.name' and isinstance(n.test.ops[0], ast.Eq) \
+                and isinstance(n.test.comparators[0], ast.Constant) and n.test.comparators[0].value in tests:
+            def ctor(stmts):
+                for st in stmts:
+                    if isinstance(st, ast.Return):
+                        v = st.value
+                        while isinstance(v, ast.Call) and ast.unparse(v.func) == 'add_formula':
+                            v = v.args[0]
+                        if isinstance(v, ast.Call) and isinstance(v.func, ast.Name):
+                            return v.func.id, [ast.unparse(a) for a in v.args]
+                raise Unsupported('no return of a constructor')
+            out[n.test.comparators[0].value] = ctor(n.body)
+            asserts = [st for st in n.orelse if isinstance(st, ast.Assert)]
+            if asserts:
+                m = re.match(r"rep\.name == '([^']+)'", ast.unparse(asserts[0].test))
+                if m and m.group(1) in tests:
+                    out[m.group(1)] = ctor(n.orelse)
+    return out
+
+
+def gen_dynamic(out):
+    B = parse('telingo/theory/body.py')
+    P = parse('telingo/theory/path.py')
+    shapes = [('ChoicePath', 'ShChoice'), ('SequencePath', 'ShSeq'), ('CheckPath', 'ShCheck'), ('KleeneStarPath', 'ShStar'), ('SkipPath', 'ShSkip')]
+    # the path classes exist with the attributes the constructions read
+    pc = {n.name: n for n in ast.walk(P) if isinstance(n, ast.ClassDef)}
+    for cname, _ in shapes:
+        if cname not in pc:
+            raise Unsupported('path class ' + cname)
+    for cname, base in (('ChoicePath', 'BinaryPath'), ('SequencePath', 'BinaryPath'), ('CheckPath', 'UnaryPath'), ('KleeneStarPath', 'UnaryPath'), ('SkipPath', 'Path')):
+        if [ast.unparse(b) for b in pc[cname].bases] != [base]:
+            raise Unsupported('base class of ' + cname)
+    bp = ast.unparse(find_fun(pc['BinaryPath'], '__init__'))
+    if 'self._lhs = lhs' not in bp or 'self._rhs = rhs' not in bp:
+        raise Unsupported('BinaryPath fields')
+    up = ast.unparse(pc['UnaryPath'])
+    if 'self.__arg = arg' not in up or 'return self.__arg' not in up:
+        raise Unsupported('UnaryPath fields')
+    lines = ['(* ---- telingo/theory/body.py: DiamondFormula / BoxFormula.translate_<PathClass>, create_path, create_dynamic_formula ---- *)']
+    for cls, name in (('DiamondFormula', 'dia_reduce_gen'), ('BoxFormula', 'box_reduce_gen')):
+        dt = find_fun(B, 'do_translate', cls)
+        want = ["if data.literal is None:\n    attr = 'translate_' + self._path.__class__.__name__\n    data.add_literal(ctx.backend)\n    getattr(self, attr)(ctx, step, data)"]
+        if [ast.unparse(st) for st in dt.body if not (isinstance(st, ast.Expr) and isinstance(st.value, ast.Constant))] != want:
+            raise Unsupported(cls + '.do_translate shape')
+        ini = ast.unparse(find_fun(B, '__init__', cls))
+        if ("DelFormula.__init__(self, rep, '<>', path, rhs)" if cls == 'DiamondFormula' else "DelFormula.__init__(self, rep, '[]', path, rhs)") not in ini:
+            raise Unsupported(cls + '.__init__ shape')
+        rows = []
+        for cname, sh in shapes:
+            m = find_fun(B, 'translate_' + cname, cls)
+            if [a.arg for a in m.args.args] != ['self', 'ctx', 'step', 'data']:
+                raise Unsupported('signature of ' + cls + '.translate_' + cname)
+            rows.append('  | %s => %s' % (sh, BuildExec().run(m.body)))
+        lines.append('Definition %s (s : pshape) : cexp :=\n  match s with\n%s\n  end.' % (name, '\n'.join(rows)))
+    di = ast.unparse(find_fun(B, '__init__', 'DelFormula'))
+    if 'self._path = path' not in di or 'self._rhs = rhs' not in di:
+        raise Unsupported('DelFormula fields')
+    # create_dynamic_formula: &final, and which class the two modal operators build
+    cd = find_fun(B, 'create_dynamic_formula')
+    fin = None
+    for n in ast.walk(cd):
+        if isinstance(n, ast.If) and ast.unparse(n.test) == "arg.name == 'final'":
+            fin = n
+    if fin is None or len(fin.body) != 1 or not isinstance(fin.body[0], ast.Return):
+        raise Unsupported('create_dynamic_formula &final')
+    lines.append('Definition del_final_gen : cexp := %s.' % BuildExec().fml(fin.body[0].value).strip())
+    mod = if_chain_returns(cd, ('.>*', '.>?'))
+    if set(mod) != {'.>*', '.>?'} or any(args != ['lhs', 'rhs'] for _, args in mod.values()):
+        raise Unsupported('create_dynamic_formula modal operators')
+    src = ast.unparse(cd)
+    if 'lhs = create_path(args[0], add_formula, False)' not in src or 'rhs = create_dynamic_formula(args[1], add_formula)' not in src:
+        raise Unsupported('create_dynamic_formula operands')
+    M = {'BoxFormula': 'MBox', 'DiamondFormula': 'MDia'}
+    lines.append('Definition del_modality_gen (op : string) : option modality := %s else None.' % ' else '.join(
+        'if String.eqb op %s then Some %s' % (coq_str(o), M[mod[o][0]]) for o in ('.>*', '.>?')))
+    cp = find_fun(B, 'create_path')
+    binp = if_chain_returns(cp, ('+', ';;'))
+    unp = if_chain_returns(cp, ('?', '*'))
+    K = {'ChoicePath': 'KChoice', 'SequencePath': 'KSeq', 'CheckPath': 'KCheck', 'KleeneStarPath': 'KStar'}
+    if set(binp) != {'+', ';;'} or any(args != ['lhs', 'rhs'] for _, args in binp.values()) or set(unp) != {'?', '*'} or any(args != ['arg'] for _, args in unp.values()):
+        raise Unsupported('create_path operators')
+    src = ast.unparse(cp)
+    for need in ('lhs = create_path(args[0], add_formula, False)', 'rhs = create_path(args[1], add_formula, False)',
+                 "if rep.name == '?':\n                arg = create_path(args[0], add_formula, True)", "assert rep.name == '*'\n                arg = create_path(args[0], add_formula, False)",
+                 'return add_formula(SequencePath(add_formula(CheckPath(create_atom(rep, add_formula, True))), add_formula(SkipPath())))',
+                 'return add_formula(SequencePath(add_formula(CheckPath(atom)), add_formula(SkipPath())))',
+                 "if not check and arg.name == 'true':\n                    return add_formula(SkipPath())"):
+        if need not in src:
+            raise Unsupported('create_path shape: ' + need[:50])
+    lines.append('Definition path_binary_gen (op : string) : option pcon := %s else None.' % ' else '.join(
+        'if String.eqb op %s then Some %s' % (coq_str(o), K[binp[o][0]]) for o in ('+', ';;')))
+    lines.append('Definition path_unary_gen (op : string) : option pcon := %s else None.' % ' else '.join(
+        'if String.eqb op %s then Some %s' % (coq_str(o), K[unp[o][0]]) for o in ('?', '*')))
+    lines.append('(* atoms used as paths are built as  (?atom) ;; skip  and &true as skip (checked textually against create_path) *)')
+    lines.append('Definition path_atom_is_test_then_step_gen : bool := true.')
+    out.append('\n'.join(lines))
+
+
+
 # ------------------------------------------------------------------------------------------------ main
 # group -> (generated file under coq/Gen, fragment functions, Requires)
 GROUPS = {
@@ -791,6 +967,7 @@ GROUPS = {
     'app': ('FromApp.v', [gen_app], ['GenPrelude']),
     'tables': ('FromTables.v', [gen_tables], ['GenPrelude']),
     'theory': ('FromTheory.v', [gen_theory], ['GenPrelude', 'TheoryPrelude']),
+    'dynamic': ('FromDynamic.v', [gen_dynamic], ['GenPrelude', 'TheoryPrelude', 'DynPrelude']),
 }
 VERIF = os.path.dirname(os.path.dirname(os.path.abspath(__file__)))
 GEN = os.path.join(VERIF, 'coq', 'Gen')
